@@ -8,9 +8,9 @@
    pseudo_selections, pseudo_expected, ...) are at the top of Proofs/HeaderCollectProofs.v and
    Proofs/HeaderWireProofs.v. *)
 From ReqV Require Import Lib.Bytes Model.HeaderOrder Model.HeaderCollect
-  Model.HeaderMerge Model.HeaderSeq
+  Model.HeaderMerge Model.HeaderSeq Model.HeaderResend Model.HeaderShared
   Proofs.HeaderOrderProofs Proofs.HeaderCollectProofs Proofs.HeaderWireProofs Proofs.HeaderSyncProofs
-  Proofs.HeaderMergeProofs Proofs.HeaderKeySortProofs Proofs.HeaderSeqProofs Gen.HeaderSrc.
+  Proofs.HeaderMergeProofs Proofs.HeaderKeySortProofs Proofs.HeaderSeqProofs Proofs.HeaderResendProofs Proofs.HeaderSharedProofs Gen.HeaderSrc.
 From Coq Require Import NArith.
 From Coq Require Import Permutation Sorting.Sorted.
 
@@ -554,6 +554,67 @@ Theorem C16_clone_inherited_order_stays : forall regs k,
 Proof. exact inherited_order_stays. Qed.
 Print Assumptions C16_clone_inherited_order_stays.
 
+(* ===================== part 2d: re-execution, overlapping requests, other spellings ===================== *)
+
+(* ONE Request object executed again (Model/HeaderResend.v: an entry of Request.Headers is flagged
+   while it is still the very copy the last execution merged from the client).  What an execution
+   sends is the merge of the caller's OWN entries with the client's headers of that moment ... *)
+Theorem C16_rexec_is_fresh_merge : forall s ch,
+  rwf s -> strip (rexec s ch) = merge_client (rown s) ch.
+Proof. exact rexec_is_fresh_merge. Qed.
+Print Assumptions C16_rexec_is_fresh_merge.
+
+(* ... and it leaves the caller's own entries as they are *)
+Theorem C16_rexec_keeps_own : forall s ch,
+  rwf s -> chwf ch -> rwf (rexec s ch) /\ rown (rexec s ch) = rown s.
+Proof. exact rexec_keeps_own. Qed.
+Print Assumptions C16_rexec_keeps_own.
+
+(* a header pinned on the request with SetHeader is what the next execution sends under that name -
+   whatever earlier executions merged there, whatever value it has, whatever the client holds now *)
+Theorem C16_pinned_header_is_sent : forall s k v ch,
+  hvals (strip (rexec (rapply_op s (OpSet k v)) ch)) (mime_key k) = [v].
+Proof. exact pinned_header_is_sent. Qed.
+Print Assumptions C16_pinned_header_is_sent.
+
+(* recognising the merged copy by its VALUES instead of its identity sends the client's new value *)
+Theorem C16_unmerge_by_value_refuted :
+  let K := bs "X-Token" in
+  let s1 := rexec [] [(K, [bs "v"])] in
+  let s2 := rapply_op s1 (OpSet K (bs "v")) in
+  hvals (strip (rexec s2 [(K, [bs "w"])])) K = [bs "v"] /\
+  hvals (strip (rexec_by_value [(K, [bs "v"])] s2 [(K, [bs "w"])])) K = [bs "w"].
+Proof. exact unmerge_by_value_refuted. Qed.
+Print Assumptions C16_unmerge_by_value_refuted.
+
+(* requests overlapping on one connection's header writer (Model/HeaderShared.v: small-step, any
+   number of requests, a scheduler, a mutex): for ANY schedule, whatever a stream has received is
+   the field section of its own request *)
+Theorem C16_shared_writer_any_interleaving : forall pays sched i t,
+  nth_error (ths (run_sched step_locked sched (start pays))) i = Some t ->
+  nth_error pays i = Some (pay t) /\ (out t = None \/ out t = Some (pay t)).
+Proof. exact shared_writer_any_interleaving. Qed.
+Print Assumptions C16_shared_writer_any_interleaving.
+
+(* writing a slice of the shared buffer after the mutex is released: a schedule exists in which a
+   stream receives the other request's field section *)
+Theorem C16_shared_writer_alias_refuted :
+  let pays := [bs "AAAA"; bs "BBBB"] in
+  let sched := [0; 0; 0; 0; 0; 1; 1; 0; 1; 1; 1; 1] in
+  map out (ths (run_sched step_locked sched (start pays))) = [Some (bs "AAAA"); Some (bs "BBBB")] /\
+  map out (ths (run_sched step_alias sched (start pays))) = [Some (bs "BBBB"); Some (bs "BBBB")].
+Proof. exact shared_writer_alias_refuted. Qed.
+Print Assumptions C16_shared_writer_alias_refuted.
+
+(* HTTP/1.1: any OTHER spelling of a name the writer handles itself (user-agent, HOST,
+   content-length, ...) is the caller's own field: written once per value, as spelled *)
+Theorem C16_h1_noncanonical_writer_name_kept : forall q k vs v,
+  In (k, vs) (c_hdr q) -> In v vs ->
+  In (to_lower k) (map to_lower h1_writer_handled) -> ~ In k h1_writer_handled -> valid_field_name k = true ->
+  In (k, sanitize v) (h1_lines q).
+Proof. exact h1_noncanonical_writer_name_kept. Qed.
+Print Assumptions C16_h1_noncanonical_writer_name_kept.
+
 (* ===================== part 3: the source the model transcribes ===================== *)
 (* Gen/HeaderSrc.v is regenerated from the working tree on every run; these statements pin the text
    of the small functions the model was written from and the names the collectors write. *)
@@ -594,6 +655,15 @@ Proof.
           (conj h2_counting_pass_precedes_encoding clone_copies_wrappers_go_as_modelled)).
 Qed.
 Print Assumptions C16_carried_state_go_as_modelled.
+
+Theorem C16_round4_go_as_modelled :
+  src_h3_writeHeaders = bs "{ w.mutex.Lock() defer w.mutex.Unlock() defer w.encoder.Close() defer w.headerBuf.Reset() if err := w.encodeHeaders(req, gzip, """", actualContentLength(req), dumps); err != nil { return err } b := make([]byte, 0, 128) b = (&headersFrame{Length: uint64(w.headerBuf.Len())}).Append(b) if _, err := wr.Write(b); err != nil { return err } _, err := wr.Write(w.headerBuf.Bytes()) return err }" /\
+  src_unmerge_headers = bs "for k, vs := range m.headers { if cur := r.Headers[k]; len(vs) > 0 && len(cur) == len(vs) && &cur[0] == &vs[0] { delete(r.Headers, k) } }" /\
+  src_h1_write_subset_call = bs "headerWriteSubset(r.Header, reqWriteExcludeHeader, writeHeader, sort)".
+Proof.
+  exact (conj h3_write_headers_go_as_modelled (conj (proj2 resend_go_as_modelled) h1_write_subset_call_go_as_modelled)).
+Qed.
+Print Assumptions C16_round4_go_as_modelled.
 
 Example C16_nonvacuous :
   let order := [bs "x-b"; bs "COOKIE"; bs "x-a"; bs "x-b"] in
